@@ -20,8 +20,8 @@ func init() {
 			"document reference derives container identities only for the root, the top node of a put value and elements of array values / batches; the generator keeps object values flat so that no live container has an underivable identity (such cases would be counted as reference_unresolvable and skipped)",
 			"clock differences < 2^62 (no serial-number wrap)",
 		},
-		Cases: func(t string) int { return tierN(t, 1600, 80000) },
-		Floor: func(t string) int { return tierN(t, 300, 15000) },
+		Cases: func(t string) int { return tierN(t, 4000, 80000) },
+		Floor: func(t string) int { return tierN(t, 800, 15000) },
 		Run:   runC02,
 	})
 }
